@@ -90,9 +90,12 @@ def run_shard(ctx, shard):
     elif kind == "mesh":
         def body(case):
             d = case[1]
-            res = mesh.laws(d)
             ctx.case(case, nontrivial=mesh.nontrivial(d), classes=mesh.classes(d))
-            return res
+            try:
+                return mesh.laws(d)
+            except Exception as e:
+                # the comparison itself fell over what the library returned (a shape nobody documented): a verdict, not a harness error
+                return [("mesh:decoded-shape-unusable:%s" % type(e).__name__, "comparing the decoded asset with the wire raised %r" % (e,))]
         hyp_run(ctx, mesh.mesh_desc().map(lambda d: ["mesh", d]), body, shard["n"], label="mesh")
     elif kind == "xfer-enum":
         which, size = shard["which"], shard["size"]
@@ -156,7 +159,10 @@ def replay(ctx, case):
     if part == "anim":
         return anim.laws(payload)
     if part == "mesh":
-        return mesh.laws(payload)
+        try:
+            return mesh.laws(payload)
+        except Exception as e:
+            return [("mesh:decoded-shape-unusable:%s" % type(e).__name__, "comparing the decoded asset with the wire raised %r" % (e,))]
     if part == "xfer":
         return xfer.run_case(payload)[0]
     raise ValueError(part)
